@@ -50,6 +50,11 @@ def corruptions():
             (lambda e: ok(e) and e["in"]["op"] == "load" and e["in"]["pre"]["images"] and e["out"]["post"]["images"][0]["read"].get("content"),
              lambda e: e["out"]["post"]["images"][0]["read"]["content"].reverse() if len(e["out"]["post"]["images"][0]["read"]["content"]) > 1 else e["out"]["post"]["images"][0]["read"]["content"].append(["solution", 99]), "another registry entry changed by a load"),
         ]),
+        ("samples", 30, [
+            (lambda e: ok(e) and any(g["r"].get("tag") == "ok" and any(c["used"] for c in g["r"]["sol"]["evaluated"]) for g in e["out"]["gets"]),
+             lambda e: [c for g in e["out"]["gets"] if g["r"].get("tag") == "ok" for c in g["r"]["sol"]["evaluated"] if c["used"]][0]["used"].pop(),
+             "a used id dropped from one extracted sample's constraint"),
+        ]),
         ("mps_roundtrip", 30, [
             (lambda e: ok(e) and e["out"]["inst"]["vars"], lambda e: e["out"]["inst"]["vars"][0].__setitem__("bound", [{"lo": [0, 1], "hi": [1, 0]}]), "a bound replaced by the MPS default"),
         ]),
@@ -125,6 +130,11 @@ def selftest(check):
     def ndiff():
         evs, _ = schema_tables.events(fake)
         return sum(1 for e in evs if not (e["in"]["P"] == e["in"]["R"] == e["in"]["Y"]))
+    def npub():
+        # tables in which a PUBLISHED field is no longer present unchanged (what JudgeWire!published_kept decides)
+        evs, _ = schema_tables.events(fake)
+        return sum(1 for e in evs if e["in"]["Pub"] and (not e["in"]["P"] or any(f not in e["in"]["P"][0] for f in e["in"]["Pub"][0])))
+    pub0 = npub()
     if ndiff() != 0:
         raise check.ToolError("selftest: schema tables of the working tree differ (see `python3 tools/schema_tables.py /repo`)")
     rs = os.path.join(fake, "rust/ommx/src/ommx.v1.rs")
@@ -136,6 +146,8 @@ def selftest(check):
     s = open(pr).read()
     open(pr, "w").write(s.replace("double constant = 2;", "double constant = 3;"))
     d2 = ndiff()
+    if npub() <= pub0:
+        raise check.ToolError("selftest: a renumbered published field is not detected against the frozen published schema")
     open(pr, "w").write(s)
     py = os.path.join(fake, "python/ommx/ommx/v1/linear_pb2.py")
     s = open(py).read()
